@@ -194,6 +194,16 @@ func (a *Attributes) XXX_UnmarshalByFlags(flags uint32, buf *Buffer) (err error)
 	if a.Flags&AttrExtended != 0 {
 		count := buf.ConsumeCount()
 
+		// Each extended attribute occupies at least 8 bytes (two
+		// length-prefixed strings), so a count larger than buf.Len()/8
+		// cannot fit and is malformed.
+		if buf.Err == nil && (count < 0 || count > buf.Len()/8) {
+			buf.Err = ErrShortPacket
+		}
+		if buf.Err != nil {
+			return buf.Err
+		}
+
 		a.ExtendedAttributes = make([]ExtendedAttribute, count)
 		for i := range a.ExtendedAttributes {
 			a.ExtendedAttributes[i].UnmarshalFrom(buf)
